@@ -167,6 +167,7 @@ def fd_derivative(fx, x, n=1, m=2):
 
     mm = n // 2 + m
     size = 2 * mm + 2  # stencil size at boundary
+    _assert(size <= num_x, 'len(x) must be at least 2 * (n // 2 + m) + 2')
     # 2 * mm boundary points
     for i in range(mm):
         du[i] = np.dot(fd_weights(x[:size], x0=x[i], n=n), fx[:size])
